@@ -205,7 +205,7 @@ def _replace_node(root: ast.AST, old: ast.AST, new: ast.AST) -> ast.AST:
             for f in n._fields:
                 if hasattr(n, f):
                     setattr(out, f, cp(getattr(n, f)))
-            for a in ("lineno", "col_offset", "end_lineno", "end_col_offset", "_qualname", "_inline_block", "_was_return", "_caller_stmt"):
+            for a in ("lineno", "col_offset", "end_lineno", "end_col_offset", "_qualname", "_inline_block", "_was_return", "_caller_stmt", "_implicit_raise"):
                 if hasattr(n, a):
                     setattr(out, a, getattr(n, a))
             return out
@@ -222,8 +222,10 @@ def _chain(lk: _Lookup, make: "callable", miss: list[ast.stmt] | None, at: ast.s
     if miss is None:
         if lk.default == "raise":
             miss = [ast.Raise(exc=ast.Call(func=ast.Name(id="KeyError", ctx=ast.Load()), args=[clone(lk.key)], keywords=[]), cause=None)]
+            miss[0]._implicit_raise = True  # type: ignore[attr-defined]  # (what the subscript did implicitly: not a new explicit raise)
         elif lk.default == "none":
             miss = [ast.Raise(exc=ast.Call(func=ast.Name(id="TypeError", ctx=ast.Load()), args=[ast.Constant(value="'NoneType' object is not callable")], keywords=[]), cause=None)]
+            miss[0]._implicit_raise = True  # type: ignore[attr-defined]
         else:
             miss = make(lk.default)
     node: ast.If | None = None
